@@ -1392,3 +1392,54 @@ BY_TRAIT.update({
     ("core::iter::traits::iterator::Iterator", "chain"): iter_chain,
     ("core::iter::traits::iterator::Iterator", "filter"): iter_filter,
 })
+
+
+def _ord_k(m, v):
+    v = load(m, v)
+    if isinstance(v, VStruct) and v.path == ORDERING:
+        return v.variant - 1
+    return None
+
+
+def ordering_pred(test):
+    def h(m, ref, args, t, sp):
+        k = _ord_k(m, args[0])
+        if k is None:
+            return ("bopq", m.new_name("ordering"))
+        return test(k)
+    return h
+
+
+def ordering_reverse(m, ref, args, t, sp):
+    k = _ord_k(m, args[0])
+    if k is None:
+        return VOpaque("?", m.new_name("reverse"))
+    return ordering(-k)
+
+
+def ordering_then(m, ref, args, t, sp):
+    k = _ord_k(m, args[0])
+    if k is None:
+        return VOpaque("?", m.new_name("then"))
+    return args[0] if k != 0 else args[1]
+
+
+def float_is_finite2(m, ref, args, t, sp):
+    v = load(m, args[0])
+    if is_float(v) and F.is_lit(v):
+        x = F.litval(v)
+        return x == x and abs(x) != float("inf")
+    if is_float(v):
+        if m.cfg.finite:
+            return True
+        return ("and", ("not", ("isnan", v)), ("and", ("fcmp", "Ne", v, F.INF), ("fcmp", "Ne", v, F.NINF)))
+    return ("bopq", m.new_name("is_finite"))
+
+
+for _nm, _t in (("is_lt", lambda k: k < 0), ("is_le", lambda k: k <= 0), ("is_gt", lambda k: k > 0),
+                ("is_ge", lambda k: k >= 0), ("is_eq", lambda k: k == 0), ("is_ne", lambda k: k != 0)):
+    BY_NAME["core::cmp::Ordering::" + _nm] = ordering_pred(_t)
+BY_NAME["core::cmp::Ordering::reverse"] = ordering_reverse
+BY_NAME["core::cmp::Ordering::then"] = ordering_then
+BY_NAME["core::f64::<impl f64>::is_finite"] = float_is_finite2
+BY_TRAIT[("num_traits::float::Float", "is_finite")] = float_is_finite2
